@@ -253,6 +253,12 @@ func (a *nilAnalysis) structFromCell(fl *types.Var, cell nilCell) bool {
 }
 
 func runC11(c *Ctx) {
+	// clause shared with C03: one response head: error body and Content-Length agree
+	defer c.ImportRules("C03", "C03.4")
+	// clause shared with C19: the stable marshaller is only used where the codec has one
+	defer c.ImportRules("C19", "C19.2")
+	// clause shared with C15: pooled (de)compressors: taken, reset and handed back exactly once
+	defer c.ImportRules("C15", "C15.2")
 	p := c.P
 	// clause shared with C08: a Read never reports more bytes than it wrote (io.Reader contract; callers panic)
 	defer c.ImportRules("C08", "C08.1")
@@ -747,7 +753,12 @@ func runC11(c *Ctx) {
 		okLemma := false
 		ForEachInstr(valFn, func(in ssa.Instruction) {
 			ret, ok := in.(*ssa.Return)
-			if !ok || nf == nil || !originIsGlobal(ret.Results[0], nf) {
+			if !ok || len(ret.Results) == 0 {
+				return
+			}
+			// refused = the not-found sentinel or any other error that cannot be nil (which status the
+			// refusal carries is C13's business - C13.10 - not a crash question)
+			if !(nf != nil && originIsGlobal(ret.Results[0], nf)) && !NeverNilError(ret.Results[0], 0) {
 				return
 			}
 			for _, f := range FactsAt(ret.Block()) {
@@ -766,6 +777,7 @@ func runC11(c *Ctx) {
 	runC11NewFieldKind(c)
 	// ---------------------------------------------------------------- C11.13
 	runC11CloseUnblocks(c)
+	runC11NullIntoPointer(c)
 
 	// ---------------------------------------------------------------- C11.10
 	c.Rule("C11.10", "a declared content length is non-negative or the -1 sentinel", 1)
@@ -1476,4 +1488,64 @@ func isLenOfVal(v, x ssa.Value) bool {
 		return true
 	}
 	return false
+}
+
+// runC11NullIntoPointer: C11.15 (seed C11l).  encoding/json sets a pointer target to nil for the
+// JSON literal `null` and reports no error.  Where peer-controlled JSON is unmarshalled into a
+// POINTER variable (json.Unmarshal(data, &p) with p of pointer type), every later use of p that
+// dereferences it is preceded by a nil test of p; unmarshalling into a struct value (&s) has no
+// such case.
+func runC11NullIntoPointer(c *Ctx) {
+	p := c.P
+	c.Rule("C11.15", "a pointer filled by json.Unmarshal is tested for nil before it is dereferenced", 0)
+	reach := p.RequestTimeReach()
+	for _, fn := range SortedFuncs(reach) {
+		if !p.inScope(fn) {
+			continue
+		}
+		for _, call := range Calls(fn) {
+			if !IsCallTo(call, "encoding/json.Unmarshal", "(*encoding/json.Decoder).Decode") {
+				continue
+			}
+			args := call.Common().Args
+			target := strip(args[len(args)-1])
+			al, ok := target.(*ssa.Alloc)
+			if !ok {
+				continue
+			}
+			inner, ok := al.Type().(*types.Pointer).Elem().(*types.Pointer)
+			if !ok {
+				continue // target is &struct, &slice, &map ...: null leaves/zeroes a value, no nil pointer
+			}
+			_ = inner
+			// loads of the pointer variable after the call
+			deref, tested := token.NoPos, false
+			for _, ref := range *al.Referrers() {
+				ld, ok := ref.(*ssa.UnOp)
+				if !ok || ld.Op != token.MUL || ld.Referrers() == nil {
+					continue
+				}
+				for _, use := range *ld.Referrers() {
+					switch u := use.(type) {
+					case *ssa.FieldAddr:
+						deref = u.Pos()
+					case *ssa.UnOp:
+						if u.Op == token.MUL {
+							deref = u.Pos()
+						}
+					case *ssa.BinOp:
+						if (u.Op == token.EQL || u.Op == token.NEQ) && (IsNilConst(u.X) || IsNilConst(u.Y)) {
+							tested = true
+						}
+					}
+				}
+			}
+			if deref == token.NoPos {
+				continue
+			}
+			c.Check(tested, "C11.15", FuncName(fn), "null-into-pointer", call.Pos(),
+				"the pointer variable the JSON is unmarshalled into is compared with nil",
+				"JSON from the peer is unmarshalled into a pointer variable that is then dereferenced ("+p.Pos(deref)+") without ever being compared with nil: for the body `null` encoding/json sets the pointer to nil and reports success, and the dereference panics out of ServeHTTP")
+		}
+	}
 }
